@@ -325,50 +325,85 @@ def descriptor_rule(ctx, r=None):
     pcls = repo.cls(f"{PARAMS}._Parameter")
     fset = pcls.methods["__set__"]
     r.instance(fn=fset.qualname)
-    from ..flow import must_pass
+    # decided by interpretation (the must-pass-through form over the statements of __set__ fired on guard-clause rewrites,
+    # refactored/C11-R8, C14-R2): every descriptor class is driven through its own __set__ / __get__ on an Updatable owner that
+    # records Need_Update, for a first assignment, the same value again, THE SAME ARRAY OBJECT again (edited in place by the
+    # caller), and a value that differs by 1e-12
+    from ..xeval import Interp, XObj, XRaise
+    from ..xarray import XArray
+    from fractions import Fraction as Q_
 
-    a = fset.node.args.args
-    inst = a[1].arg if len(a) > 1 else "instance"
-
-    def is_need_update(st):
-        # instance.Need_Update() / instance.Need_Update(True): raises the dirty flag
-        if not (isinstance(st, ast.Expr) and isinstance(st.value, ast.Call)):
-            return False
-        c = st.value
-        if not (isinstance(c.func, ast.Attribute) and c.func.attr == "Need_Update" and isinstance(c.func.value, ast.Name) and c.func.value.id == inst):
-            return False
-        vals = list(c.args) + [k.value for k in c.keywords]
-        return all(isinstance(v, ast.Constant) and v.value is True for v in vals)
-
-    def updatable_guard(test):
-        # isinstance(instance, Updatable): the only condition under which the flag may be skipped
-        return (isinstance(test, ast.Call) and dotted(test.func) == "isinstance" and len(test.args) == 2 and isinstance(test.args[0], ast.Name)
-                and test.args[0].id == inst and (dotted(test.args[1]) or "").split(".")[-1] == "Updatable")
-
-    if must_pass(fset.node.body, is_need_update, updatable_guard):
-        r.ok("_Parameter.__set__: every completing path (for an Updatable owner) calls instance.Need_Update()")
-    else:
-        r.fail(fset.qualname, "need-update", fset.file, fset.lineno, "_Parameter.__set__", "some path through _Parameter.__set__ stores/keeps a parameter without raising Need_Update on the owner (only `isinstance(instance, Updatable)` may guard it): an assignment - e.g. of an array edited in place by the caller - leaves C and S stale")
-    # subclasses must not override __set__ / __get__ without the same discipline
-    for pc in repo.subclasses(pcls):
-        for nm in ("__set__",):
-            m = pc.methods.get(nm)
-            if m is not None and m.cls is pc:
-                r.instance(fn=m.qualname)
-                aa = m.node.args.args
-                inst2 = aa[1].arg if len(aa) > 1 else "instance"
-                sup = any(isinstance(n, ast.Call) and isinstance(n.func, ast.Attribute) and n.func.attr == "__set__" and isinstance(n.func.value, ast.Call) and dotted(n.func.value.func) == "super" for n in ast.walk(m.node))
-                if sup:
-                    r.ok(f"{pc.name}.__set__ delegates to _Parameter.__set__")
-                else:
-                    r.fail(m.qualname, "need-update", m.file, m.lineno, f"{pc.name}.__set__", "overrides __set__ without delegating to _Parameter.__set__: Need_Update is not raised")
-    fget = pcls.methods["__get__"]
-    r.instance(fn=fget.qualname)
-    rets = [n for n in ast.walk(fget.node) if isinstance(n, ast.Return) and n.value is not None]
-    if rets and all(isinstance(n.value, ast.Call) and ((dotted(n.value.func) or "") in ("copy.copy", "copy.deepcopy", "copy", "deepcopy", "np.copy", "np.array") or (isinstance(n.value.func, ast.Attribute) and n.value.func.attr in ("copy", "__copy__", "__deepcopy__"))) for n in rets):
-        r.ok("_Parameter.__get__ hands out a copy: the stored value cannot be edited behind the dirty flag")
-    else:
-        r.fail(fget.qualname, "get-copy", fget.file, fget.lineno, "_Parameter.__get__", "reading a parameter returns the stored object itself: `law.E[0] = x` would change the law without raising Need_Update")
+    owner_cls = repo.cls("EasyFEA.Models._thermal.Thermal")
+    candidates = [Q_(3), Q_(1, 4), True, "x", 2]
+    classes = [pcls] + list(repo.subclasses(pcls))
+    for pc in classes:
+        if pc is pcls:
+            continue
+        fs = repo.lookup_method(pc, "__set__")
+        fg = repo.lookup_method(pc, "__get__")
+        r.instance(fn=fs.qualname)
+        I = Interp(repo)
+        desc = XObj(pc, {})
+        init = repo.lookup_method(pc, "__init__")
+        try:
+            if init is not None:
+                npar = len(init.node.args.args) - 1 - len(init.node.args.defaults)
+                I.call_function(init, [[1, 2, 3]] * npar if npar else [], {}, self_obj=desc)
+            sn = repo.lookup_method(pc, "__set_name__")
+            if sn is not None:
+                I.call_function(sn, [owner_cls, "p"], {}, self_obj=desc)
+        except XRaise:
+            r.ok(None)
+            continue
+        calls = []
+        owner = XObj(owner_cls, {"Need_Update": lambda value=True: calls.append(value)})
+        good = None
+        for c in candidates:
+            try:
+                I.call_function(fs, [owner, c], {}, self_obj=desc)
+                good = c
+                break
+            except XRaise:
+                del calls[:]
+                continue
+        if good is None:
+            r.ok(None)
+            continue
+        bad = None
+        if not calls or calls[-1] is not True and calls[-1] != True:
+            bad = "a first assignment does not raise Need_Update on the owner"
+        # (re-assigning an EQUAL immutable scalar may legitimately skip the update: not asked)
+        seq = []
+        if isinstance(good, Q_) and not isinstance(good, bool):
+            arr = XArray((3,), [good, good + 1, good + 2])
+            seq += [("a value that differs by 1e-12", good + Q_(1, 10**12)), ("an array", arr), ("the same array object again, edited in place by the caller in between", arr)]
+        elif isinstance(good, bool):
+            seq += [("the opposite value", not good)]
+        for label, v in seq:
+            if bad:
+                break
+            del calls[:]
+            if label.startswith("the same array object"):
+                v.data[0] = v.data[0] + 5
+            try:
+                I.call_function(fs, [owner, v], {}, self_obj=desc)
+            except XRaise:
+                continue  # the descriptor's own checker rejects this value (fields, values outside a finite set)
+            if not calls or calls[-1] is False:
+                bad = f"{label}: the value is stored without raising Need_Update on the owner: the law (C, S) keeps the values computed from the old parameter"
+                break
+            got = I.call_function(fg, [owner, owner_cls], {}, self_obj=desc)
+            if isinstance(v, XArray):
+                if got is v or got is owner.attrs.get("p"):
+                    bad = f"{label}: __get__ hands out the stored array itself: `law.E[0] = x` would change the law without raising Need_Update"
+                elif not (isinstance(got, XArray) and list(got.data) == list(v.data)):
+                    bad = f"{label}: __get__ returns {got!r}, the value assigned was {v!r}"
+            elif got != v:
+                bad = f"{label}: __get__ returns {got!r}, the value assigned was {v!r}"
+        if bad:
+            r.fail(fs.qualname, "need-update", fs.file, fs.lineno, f"{pc.name}.__set__", f"{pc.name}: {bad}")
+        else:
+            r.ok(f"{pc.name}: every assignment raises Need_Update, __get__ returns a copy of the assigned value")
     return pcls
 
 
